@@ -1,8 +1,176 @@
 import Driver.Codec
+import LopdfModel.Model.CMap
+import LopdfModel.Model.CMapParse
+import LopdfModel.Spec.CMapRender
 namespace Lopdf.Driver.C15
-open Lopdf Lopdf.Codec
+open Lopdf Lopdf.Codec Lopdf.CMap
+
+/-
+  Protocol of property C15.
+
+  sections   ::= ( `bc` n (<code> <dst>){n} | `br` n (<lo> <hi> k <dst>{k}){n} | `cs` n (<lo> <hi>){n} )*
+                 codes are hex byte strings (their byte length is the code length),
+                 a <dst> is the hex of big-endian UTF-16 units.
+  cmap_get    <sections> q <code>*      -> ok (-|u<hex>|panic@<site>)*        | err
+  cmap_runs   <sections>                -> ok <len>:<lo>-<hi>=<target>,… ×4   | err
+  cmap_decode <sections> q <bytes>      -> ok <scalar hex>* | panic@<site> | err
+  cmap_render <sections>                -> ok <hex of the canonical writer's text (Spec/CMapRender.lean)>
+  cmap_text_get / cmap_text_decode: the same with `<hex of the CMap stream text>` instead of <sections>
+                 (the model parses the text with its own grammar model; `err` = parse error)
+-/
+
+def natOfBytes (bs : Bytes) : Nat := bs.foldl (fun acc (b : UInt8) => acc * 256 + b.toNat) 0
+
+def unitsOfBytes : Bytes → Option (List Nat)
+  | [] => some []
+  | a :: b :: rest => (unitsOfBytes rest).map (fun t => (a.toNat * 256 + b.toNat) :: t)
+  | _ => none
+
+def codeTok (s : String) : Option (Nat × Nat) :=
+  (bytesOfHex s).bind fun bs => if bs.isEmpty then none else some (natOfBytes bs, bs.length)
+
+def dstTok (s : String) : Option (List Nat) := (bytesOfHex s).bind unitsOfBytes
+
+partial def takeChars : Nat → List String → Option (List ((Nat × Nat) × List Nat) × List String)
+  | 0, ts => some ([], ts)
+  | n+1, c :: d :: ts => do
+    let code ← codeTok c
+    let dst ← dstTok d
+    let (rest, ts') ← takeChars n ts
+    pure ((code, dst) :: rest, ts')
+  | _, _ => none
+
+partial def takeDsts : Nat → List String → Option (List (List Nat) × List String)
+  | 0, ts => some ([], ts)
+  | n+1, d :: ts => do
+    let dst ← dstTok d
+    let (rest, ts') ← takeDsts n ts
+    pure (dst :: rest, ts')
+  | _, _ => none
+
+partial def takeRanges : Nat → List String → Option (List ((Nat × Nat × Nat) × List (List Nat)) × List String)
+  | 0, ts => some ([], ts)
+  | n+1, a :: b :: k :: ts => do
+    let (lo, len) ← codeTok a
+    let (hi, len') ← codeTok b
+    if len ≠ len' then none
+    let k ← k.toNat?
+    let (dsts, ts1) ← takeDsts k ts
+    let (rest, ts2) ← takeRanges n ts1
+    pure (((lo, hi, len), dsts) :: rest, ts2)
+  | _, _ => none
+
+partial def takeCs : Nat → List String → Option (List (Nat × Nat × Nat) × List String)
+  | 0, ts => some ([], ts)
+  | n+1, a :: b :: ts => do
+    let (lo, len) ← codeTok a
+    let (hi, _) ← codeTok b
+    let (rest, ts') ← takeCs n ts
+    pure ((lo, hi, len) :: rest, ts')
+  | _, _ => none
+
+/-- sections up to the token `q` (or the end) -/
+partial def takeSections : List String → Option (List Section × List String)
+  | [] => some ([], [])
+  | "q" :: ts => some ([], ts)
+  | "bc" :: n :: ts => do
+    let n ← n.toNat?
+    let (ms, ts1) ← takeChars n ts
+    let (ss, ts2) ← takeSections ts1
+    pure (.bfChar ms :: ss, ts2)
+  | "br" :: n :: ts => do
+    let n ← n.toNat?
+    let (ms, ts1) ← takeRanges n ts
+    let (ss, ts2) ← takeSections ts1
+    pure (.bfRange ms :: ss, ts2)
+  | "cs" :: n :: ts => do
+    let n ← n.toNat?
+    let (ms, ts1) ← takeCs n ts
+    let (ss, ts2) ← takeSections ts1
+    pure (.csRange ms :: ss, ts2)
+  | _ => none
+
+def hex4 (u : Nat) : String :=
+  hexOfBytes [(u / 256 % 256).toUInt8, (u % 256).toUInt8]
+
+def hexUnits (us : List Nat) : String := String.join (us.map hex4)
+
+def hexNat (n : Nat) : String :=
+  String.ofList (Nat.toDigits 16 n)
+
+def showGet : Outcome (Option (List Nat)) → String
+  | .ok none => "-"
+  | .ok (some us) => "u" ++ hexUnits us
+  | .err e => "err:" ++ e
+  | .panic s => "panic@" ++ s
+
+def showTarget : Target → String
+  | .hex st v => "h" ++ toString st ++ ":" ++ hexUnits v
+  | .cp off => "c" ++ toString off
+  | .arr st vs => "a" ++ toString st ++ ":" ++ String.intercalate "/" (vs.map hexUnits)
+
+def showRuns (m : UMap) : String :=
+  String.intercalate " " ([1, 2, 3, 4].map fun len =>
+    toString len ++ ":" ++ String.intercalate "," ((m len).map fun (a, b, t) =>
+      toString a ++ "-" ++ toString b ++ "=" ++ showTarget t))
+
+def showDecode (m : UMap) (bytes : Bytes) : String :=
+  match bytesToUnits m (bytes.map (·.toNat)) with
+  | .ok us => "ok" ++ String.join ((decodeUnits us).map fun c => " " ++ hexNat c)
+  | .err e => "err:" ++ e
+  | .panic s => "panic@" ++ s
+
+def answer (op : String) (m : UMap) (rest : List String) : String :=
+  match op with
+  | "get" =>
+    match rest.mapM codeTok with
+    | some qs => "ok" ++ String.join (qs.map fun (c, l) => " " ++ showGet (get m c l))
+    | none => "bad-op"
+  | "runs" => if rest.isEmpty then "ok " ++ showRuns m else "bad-op"
+  | "decode" =>
+    match rest with
+    | [b] => match bytesOfHex b with
+      | some bs => showDecode m bs
+      | none => "bad-op"
+    | _ => "bad-op"
+  | _ => "bad-op"
+
+def viaSections (op : String) (args : List String) : String :=
+  match takeSections args with
+  | some (ss, rest) =>
+    match fromSections ss with
+    | some m => answer op m rest
+    | none => "err"
+  | none => "bad-op"
+
+def viaText (op : String) (args : List String) : String :=
+  match args with
+  | t :: rest =>
+    let rest := match rest with | "q" :: r => r | r => r
+    match bytesOfHex t with
+    | some text =>
+      match parseCMap text with
+      | some ss =>
+        match fromSections ss with
+        | some m => answer op m rest
+        | none => "err"
+      | none => "err"
+    | none => "bad-op"
+  | [] => "bad-op"
 
 /-- protocol operations of property C15: `none` = not an operation of this property. -/
-def handle (op : String) (args : List String) : Option String := none
+def handle (op : String) (args : List String) : Option String :=
+  match op with
+  | "cmap_get" => some (viaSections "get" args)
+  | "cmap_runs" => some (viaSections "runs" args)
+  | "cmap_decode" => some (viaSections "decode" args)
+  | "cmap_render" =>
+    some <| match takeSections args with
+    | some (ss, []) => "ok " ++ hexTok (CMapRender.renderCMap ss)
+    | _ => "bad-op"
+  | "cmap_text_get" => some (viaText "get" args)
+  | "cmap_text_runs" => some (viaText "runs" args)
+  | "cmap_text_decode" => some (viaText "decode" args)
+  | _ => none
 
 end Lopdf.Driver.C15
